@@ -746,7 +746,7 @@ func graphC01(r *ev.Run, thorough bool) {
 	G := &gprops{decOn: true, dec: props{scoreLevel: 0}}
 	gs := &gstats{}
 	runGraphs(r, G, gs, []graphCfg{cfgV3Base()})
-	permutationsV3(r, G, gs, []int{1, 2}, thorough)
+	permutationsV3(r, G, gs, []int{0, 1, 2}, thorough)
 	r.Add("evaluations", atomic.LoadInt64(&gs.strings))
 	r.Set("strings_executed", atomic.LoadInt64(&gs.strings))
 	r.Set("strings_accepted", atomic.LoadInt64(&gs.accepted))
@@ -786,11 +786,15 @@ func tokensOf(ver, level int, tok map[string]string) []string {
 // decoders; all orders of the temporal tokens at all positions; ordered selections of
 // environmental tokens.
 func permutationsV3(r *ev.Run, G *gprops, gs *gstats, decoders []int, thorough bool) {
-	assigns := []map[string]string{baseVec(3, firstCode), baseVec(3, lastCode)}
+	// four assignments; in the last two, neighbouring metrics carry different letters that are
+	// valid codes of each other (a decoder that files a value under the wrong metric changes the score)
+	assigns := []map[string]string{baseVec(3, firstCode), baseVec(3, lastCode),
+		{"AV": "L", "AC": "H", "PR": "N", "UI": "R", "S": "C", "C": "H", "I": "L", "A": "N"},
+		{"AV": "N", "AC": "L", "PR": "H", "UI": "N", "S": "U", "C": "N", "I": "H", "A": "L"}}
 	var jobs [][]string
 	for ai, a := range assigns {
 		for vi, verLabel := range spec.V3Versions {
-			if !thorough && ai != vi {
+			if !thorough && ai%2 != vi {
 				continue
 			}
 			toks := tokensOf(3, 0, a)
